@@ -38,6 +38,10 @@ type dop struct {
 	ln      *string // nil = SetLanguage(nil)
 	lk      bool
 	viaPers bool // sess: through persist.Persister.WithSession on the shared handle
+	// put/get: the language carried by the CALLER'S CONTEXT (only generated in histories whose handle never
+	// has a language of its own). Model: the language applies to this one call and leaves the handle as it
+	// was, i.e. SetLanguage(Some l); op; SetLanguage(None)
+	cl *string
 }
 
 // opSep separates the two model operations a persister operation stands for
@@ -110,9 +114,11 @@ func (o dop) term() string {
 	case "load": // Load(key) = SetPrefix(STATE); Get(key), observed through what the persister then holds
 		return fmt.Sprintf("OSetPrefix %d%sOGet %s", db.DATATYPE_STATE, opSep, hx.B(o.k))
 	case "put":
-		return fmt.Sprintf("OPut %s %s", hx.B(o.k), valTerm(o.v))
+		return o.ctxWrap(fmt.Sprintf("OPut %s %s", hx.B(o.k), valTerm(o.v)))
 	case "get":
-		return "OGet " + hx.B(o.k)
+		return o.ctxWrap("OGet " + hx.B(o.k))
+	case "reconnect": // Connect on a connected store "should be ignored": no model operation at all
+		return ""
 	case "pfx":
 		return fmt.Sprintf("OSetPrefix %d", o.p)
 	case "sess":
@@ -132,7 +138,22 @@ func (o dop) term() string {
 	return "OPaths " + hx.B(o.k)
 }
 
+func (o dop) ctxWrap(t string) string {
+	if o.cl == nil {
+		return t
+	}
+	return "OSetLanguage (Some " + hx.S(*o.cl) + ")" + opSep + t + opSep + "OSetLanguage None"
+}
+
 func (o dop) short() string {
+	if o.cl != nil {
+		o2 := o
+		o2.cl = nil
+		return o2.short() + fmt.Sprintf("[ctx language %q]", *o.cl)
+	}
+	if o.kind == "reconnect" {
+		return "connect-again"
+	}
 	switch o.kind {
 	case "save":
 		return fmt.Sprintf("persister.Save(%q,state#%d)", o.k, o.si)
@@ -167,6 +188,7 @@ type backend struct {
 	root string // fs: model root (temp dir); the store is root/p/q/s
 	srv  *fakepg.Server
 	pers *persist.Persister // shares the handle d
+	conn string             // the connection string the store was opened with
 }
 
 var storeDir = []string{"p", "q", "s"}
@@ -187,14 +209,15 @@ func newBackends() ([]*backend, error) {
 		if bin {
 			f = f.WithBinary()
 		}
-		if err := f.Connect(ctx, filepath.Join(append([]string{root}, storeDir...)...)); err != nil {
+		conn := filepath.Join(append([]string{root}, storeDir...)...)
+		if err := f.Connect(ctx, conn); err != nil {
 			return nil, err
 		}
 		n := "fst"
 		if bin {
 			n = "fsb"
 		}
-		bs = append(bs, &backend{name: n, d: f, root: root})
+		bs = append(bs, &backend{name: n, d: f, root: root, conn: conn})
 	}
 	srv := fakepg.New()
 	pg := postgres.NewPgDb().WithConnection(srv.Conn())
@@ -257,9 +280,18 @@ func kvTerm(k, v []byte) string { return "(" + hx.B(k) + ", " + valTerm(v) + ")"
 
 func (b *backend) apply(o dop) string {
 	ctx := context.Background()
+	if o.cl != nil {
+		ctx = context.WithValue(ctx, "Language", lang.Language{Code: *o.cl, Name: "x"})
+	}
 	res := "DOk"
 	pk, _ := hx.Recover(func() {
 		switch o.kind {
+		case "reconnect":
+			// a second Connect with the connection string the store was opened with
+			res = ""
+			if err := b.d.Connect(ctx, b.conn); err != nil {
+				res = "DPanic" // an observation without operation: reported as a mismatch
+			}
 		case "save":
 			if b.pers == nil {
 				b.pers = persist.NewPersister(b.d)
@@ -368,6 +400,9 @@ func (b *backend) apply(o dop) string {
 			res = "DOk" + opSep + "DPanic"
 		}
 	}
+	if o.cl != nil {
+		res = "DOk" + opSep + res + opSep + "DOk"
+	}
 	return res
 }
 
@@ -449,6 +484,9 @@ func (rn *dbrunner) run(kind string, ops []dop) error {
 		line := o.short() + " =>"
 		for i, b := range bs {
 			r := b.apply(o)
+			if r == "" { // (connect-again, ignored as it should be)
+				continue
+			}
 			obs[i] = append(obs[i], strings.Split(r, opSep)...)
 			if j := strings.LastIndex(r, opSep); j >= 0 {
 				r = r[j+len(opSep):]
@@ -466,7 +504,9 @@ func (rn *dbrunner) run(kind string, ops []dop) error {
 	}
 	var terms []string
 	for _, o := range kept {
-		terms = append(terms, strings.Split(o.term(), opSep)...)
+		if t := o.term(); t != "" {
+			terms = append(terms, strings.Split(t, opSep)...)
+		}
 	}
 	dir := hx.SList(storeDir)
 	term := fmt.Sprintf("mkDbCase %s %s %s %s %s %s %s %s %s", dir, hx.List(paren(terms)),
@@ -484,9 +524,12 @@ func sp(s string) *string { return &s }
 var (
 	docTypes   = []uint8{db.DATATYPE_BIN, db.DATATYPE_MENU, db.DATATYPE_TEMPLATE, db.DATATYPE_STATICLOAD, db.DATATYPE_STATE, db.DATATYPE_USERDATA}
 	roTypes    = []uint8{db.DATATYPE_BIN, db.DATATYPE_MENU, db.DATATYPE_TEMPLATE, db.DATATYPE_STATICLOAD}
-	validKeys  = []string{"foo", "bar", "foobar", "root", "a1", "foo_menu", "ab", "x1y2", "main_1", "fo", "Ps", "P1", "b4r", "Pin", "at_root"}
+	validKeys  = []string{"foo", "bar", "foobar", "root", "a1", "foo_menu", "ab", "x1y2", "main_1", "fo", "Ps", "P1", "b4r", "Pin", "at_root", "tmp", "alice", "s1", "foo.tmp"}
 	validSess  = []string{"", "alice", "bob", "s1", "+2547", "Pat", "s", "x"}
 	validLangs = []*string{nil, nil, sp("eng"), sp("nor"), sp("swa")}
+	// application-defined data types: sessioned above STATICLOAD whatever their bits, language-typed when they
+	// carry one of the MENU/TEMPLATE/STATICLOAD bits
+	oddTypes = []uint8{9, 12, 33, 48, 64, 128, 192, 66}
 	advAlpha   = []byte{'a', 'b', '.', '_', '/', 'P', '@', 0xff}
 )
 
@@ -560,6 +603,18 @@ func genValid(r *rand.Rand, thorough, binKeys bool) []dop {
 	}
 	sessPool := []string{validSess[r.Intn(len(validSess))], validSess[r.Intn(len(validSess))], validSess[r.Intn(len(validSess))]}
 	typePool := []uint8{docTypes[r.Intn(6)], docTypes[r.Intn(6)], docTypes[r.Intn(6)], docTypes[4+r.Intn(2)]}
+	if r.Intn(5) == 0 {
+		typePool[r.Intn(3)] = oddTypes[r.Intn(len(oddTypes))]
+		ops = append(ops, dop{kind: "lock", p: 0x0f, lk: false})
+	}
+	// a quarter of the histories never give the handle a language: the CALLER'S CONTEXT carries one instead
+	ctxMode := r.Intn(4) == 0
+	ctxLang := func() *string {
+		if !ctxMode || r.Intn(3) == 0 {
+			return nil
+		}
+		return validLangs[1+r.Intn(len(validLangs)-1)]
+	}
 	key := func() []byte { return keyPool[r.Intn(len(keyPool))] }
 	prefixOf := func() []byte {
 		k := key()
@@ -569,15 +624,19 @@ func genValid(r *rand.Rand, thorough, binKeys bool) []dop {
 	for i := 0; i < n; i++ {
 		switch x := r.Intn(100); {
 		case x < 34:
-			ops = append(ops, dop{kind: "put", k: key(), v: vg.next(r)})
+			ops = append(ops, dop{kind: "put", k: key(), v: vg.next(r), cl: ctxLang()})
 		case x < 66:
-			ops = append(ops, dop{kind: "get", k: key()})
+			ops = append(ops, dop{kind: "get", k: key(), cl: ctxLang()})
 		case x < 76:
 			ops = append(ops, dop{kind: "pfx", p: typePool[r.Intn(len(typePool))]})
 		case x < 83:
 			ops = append(ops, dop{kind: "sess", s: sessPool[r.Intn(len(sessPool))]})
 		case x < 88:
-			ops = append(ops, dop{kind: "lang", ln: validLangs[r.Intn(len(validLangs))]})
+			if ctxMode {
+				ops = append(ops, dop{kind: "reconnect"})
+			} else {
+				ops = append(ops, dop{kind: "lang", ln: validLangs[r.Intn(len(validLangs))]})
+			}
 		case x < 91:
 			switch r.Intn(5) {
 			case 0:
@@ -789,6 +848,14 @@ func (rn *dbrunner) corpus() error {
 			dop{kind: "decode", k: append([]byte{S}, "25471.k"...)}, dop{kind: "decode", k: append([]byte{S}, "2547.k"...)}, dop{kind: "decode", k: append([]byte{S}, "2547"...)},
 			dop{kind: "decode", k: []byte{S}}, dop{kind: "decode", k: append([]byte{S}, "2547.az3u"...)}, sess(""), dop{kind: "decode", k: append([]byte{S}, "25471.k"...)},
 			pfx(M), dop{kind: "decode", k: append([]byte{M}, "foo_menu_nor"...)}, dop{kind: "decode", k: append([]byte{M}, "ab_nor"...)}, sess("25471"), pfx(S), dump(""))},
+		{"corpus:context-language", cat(un, pfx(M), put("foo", "default"), dop{kind: "put", k: []byte("foo"), v: []byte("norsk"), cl: sp("nor")}, dop{kind: "put", k: []byte("foo"), v: []byte("kiswahili"), cl: sp("swa")},
+			dop{kind: "get", k: []byte("foo"), cl: sp("nor")}, dop{kind: "get", k: []byte("foo"), cl: sp("swa")}, get("foo"), put("foo", "default2"), dop{kind: "get", k: []byte("foo"), cl: sp("nor")}, get("foo"),
+			pfx(dbTemplate()), dop{kind: "get", k: []byte("foo"), cl: sp("nor")}, dop{kind: "put", k: []byte("bar"), v: []byte("t-nor"), cl: sp("nor")}, get("bar"), dop{kind: "get", k: []byte("bar"), cl: sp("eng")})},
+		{"corpus:connect-again", cat(un, pfx(U), sess("a"), put("k", "v1"), dop{kind: "reconnect"}, get("k"), pfx(S), put("k", "st"), dop{kind: "reconnect"}, get("k"), dump(""))},
+		{"corpus:staging-name", cat(un, pfx(U), sess("alice"), put("tmp", "alice's"), sess(""), put("alice", "nobody's"), sess("alice"), get("tmp"), dump(""), pfx(S), put("tmp", "st"), sess(""), put("alice", "x"), sess("alice"), get("tmp"),
+			pfx(B), sess(""), put("foo.tmp", "code1"), put("foo", "code2"), get("foo.tmp"), get("foo"))},
+		{"corpus:application-types", cat(un, dop{kind: "lock", p: 0x0f, lk: false}, pfx(64), sess("a"), put("k", "A64"), sess("b"), put("k", "B64"), get("k"), sess("a"), get("k"), dump(""), pfx(128), put("k", "A128"), sess("b"), get("k"), sess("a"), get("k"),
+			pfx(9), put("k", "A9"), sess("b"), get("k"), put("k", "B9"), sess("a"), get("k"), lng("nor"), put("k", "A9nor"), get("k"), nolng, get("k"), pfx(192), sess("b"), put("q", "B192"), sess("a"), get("q"), sess(""), get("q"), get("b.q"), paths("q"))},
 		// C11 findings
 		{"corpus:C11-1-dot-in-session", cat(un, pfx(U), sess("a"), put("b.c", "A"), sess("a.b"), get("c"), put("c", "B"), sess("a"), get("b.c"), dump(""))},
 		{"corpus:C11-2-empty-session", cat(un, pfx(U), sess("a"), put("k", "A"), sess(""), get("a.k"), dump(""), put("a.k", "B"), sess("a"), get("k"))},
